@@ -2,7 +2,7 @@
 import copy
 import json
 
-from sim import core, gen_a, world_a
+from sim import core, gen_a, wiremap, world_a
 
 PROPS = {'C06': {'C06'}, 'C07': {'C07'}, 'C08': {'C08'}, 'C09': {'C09'},
          'C20': {'C20'}}
@@ -159,6 +159,18 @@ def shrink(check, trace, cls, vbuf=None, max_execs=2000):
                 t = copy.deepcopy(cand)
                 t['conns'][0]['frames'][0]['b'] = bytes(items).hex()
                 return bad(t)
+
+            def test_reframed(items):
+                # dropping bytes breaks the envelope; try it repaired too
+                if test_raw(items):
+                    return True
+                fixed = wiremap.reframe(bytes(items))
+                return fixed != bytes(items) and test_raw(list(fixed))
+            raw2 = _ddmin_list(raw, test_reframed)
+            if not test_raw(raw2):
+                raw2 = list(wiremap.reframe(bytes(raw2)))
+            if test_raw(raw2):
+                raw = raw2
             raw = _ddmin_list(raw, test_raw)
             # simplify the surviving bytes toward zero
             for i in range(len(raw)):
